@@ -1,5 +1,6 @@
 import GrpcModel.Driver.Loop
 import GrpcModel.Model.Connectivity
+import GrpcModel.Generated.Connectivity
 /-!
 component `s_connectivity` (C30), tie T2: see harness/synct/c_connectivity_test.go for the ops and
 the output format.
@@ -24,6 +25,15 @@ implementation showed so far and the ops only:
 -/
 namespace GrpcModel.Driver.S_connectivity
 open GrpcModel.Driver GrpcModel.Connectivity
+
+/-- T4: in the CURRENT source of ClientConn.WaitForStateChange the notify channel is taken before the
+    state is read (the order the model's `codeOrder = true` callers use and the theorems need). The
+    tie cannot interleave a change between the two calls, so the order is read off the source text. -/
+def sourceOrderIsCodeOrder : Bool :=
+  let src := GrpcModel.Generated.waitForStateChangeSrc
+  match src.splitOn "getNotifyChan()", src.splitOn "getState()" with
+  | a :: _ :: _, b :: _ :: _ => a.length < b.length
+  | _, _ => false
 
 def nat? (s : String) : Option Nat :=
   match s.toNat? with
@@ -322,7 +332,7 @@ def stripPrefix? (p s : String) : Option String :=
 
 def getSeen (m : Mon) (k : Nat) : ConnState := ((m.lastSeen.find? (·.1 = k)).map (·.2)).getD .idle
 
-def judgeEvent (clock : Nat) (op : String) (m : Mon) (e : String) : Mon × Option String :=
+def judgeEvent (health : Bool) (clock : Nat) (op : String) (m : Mon) (e : String) : Mon × Option String :=
   if e = "lb:build" then ({ m with lastSeen := [], tfAt := [] }, none)
   else if e.startsWith "lb:" then (m, none)
   else match stripPrefix? "ch:" e with
@@ -350,6 +360,7 @@ def judgeEvent (clock : Nat) (op : String) (m : Mon) (e : String) : Mon × Optio
             else if op = "sleep" ∧ t0 + 1 ≤ clock then none
             else some s!"sc{k}: left TRANSIENT_FAILURE to IDLE before the back-off ended"
           else none
+        let v := v.map fun r => if health then r ++ " [health-checked sub-channel]" else r
         ({ m with lastSeen := (k, st) :: m.lastSeen.filter (·.1 ≠ k),
                   tfAt := if st = .transientFailure then (k, clock) :: m.tfAt.filter (·.1 ≠ k) else m.tfAt }, v)
       | _, _ => (m, some s!"unparsable event {e}")
@@ -376,13 +387,13 @@ def judgeEvent (clock : Nat) (op : String) (m : Mon) (e : String) : Mon × Optio
     | _ => (m, some s!"unparsable event {e}")
   else (m, some s!"unparsable event {e}")
 
-def judgeLine (clock : Nat) (op : String) (m : Mon) (impl : String) : Mon × Option String :=
+def judgeLine (health : Bool) (clock : Nat) (op : String) (m : Mon) (impl : String) : Mon × Option String :=
   let toks := (impl.splitOn " ").filter (· ≠ "")
   let evs := toks.takeWhile fun t => !t.startsWith "st="
   let rest := toks.dropWhile fun t => !t.startsWith "st="
   let (m1, v1) := evs.foldl (fun (acc : Mon × Option String) e =>
       if e = "-" then acc else
-      let (m', v) := judgeEvent clock op acc.1 e
+      let (m', v) := judgeEvent health clock op acc.1 e
       (m', acc.2 <|> v)) (m, none)
   let v2 := match rest with
     | st :: _dials :: real :: _ =>
@@ -401,9 +412,12 @@ def judgeLine (clock : Nat) (op : String) (m : Mon) (impl : String) : Mon × Opt
         | none => some "unparsable real="
       a <|> b
     | _ => some "unparsable line"
+  let v0 := if op = "wait" ∧ !sourceOrderIsCodeOrder then
+      some "WaitForStateChange no longer takes the notify channel before reading the state: a change between the two calls is missed (theorem wrong_order_misses_a_change)"
+    else none
   let v3 := m1.ws.foldl (fun acc w => acc <|>
       (if ¬ w.done ∧ w.sawDiff then some s!"w{w.id}: still blocked although the state differed from the source state (missed notification)" else none)) none
-  (m1, v1 <|> v2 <|> v3)
+  (m1, v0 <|> v1 <|> v2 <|> v3)
 
 def monOp (d : D) (fs : List String) (m : Mon) : Mon :=
   match fs with
@@ -427,7 +441,7 @@ def stepD : Step D := fun d fs impl =>
     let (d3, out) := render d2 d.scs lbEv
     if impl = "bad-op" then (d3, out, "-") else
     let m0 := monOp d fs d3.mon
-    let (m1, v) := judgeLine d3.clock (fs.headD "") m0 impl
+    let (m1, v) := judgeLine d3.health d3.clock (fs.headD "") m0 impl
     ({ d3 with mon := m1 }, out, match v with | some r => "VIOL " ++ r | none => "ok")
 
 def run : IO Unit := Driver.run init stepD
